@@ -51,8 +51,9 @@ CLAIMED.update({
          'at most inactivity_ticks local ticks old and no failure notification about j is handled, a peer seen RUNNING stays RUNNING '
          '(any other messages, stale/duplicated handshake results, failures of other peers, internal errors). The instance graph, the active '
          'states and the strict comparison of is_inactive are REGENERATED from the source; the table has only documented edges, ISOLATED is final. '
-         'Tie: translator + global lock-step of the real cluster with crash/restart/cut/heal instants and tick phases. A free-running closed loop of real instances (harness/c16free.py) also judges that a peer seen RUNNING 12 ticks into a quiet phase without fault is still seen RUNNING at its end.',
-    note='Partial: the detection bound and same-tick invalidation are carried by the lock-step correspondence and by timing judges on the real '
+         'Tie: translator + global lock-step of the real cluster with crash/restart/cut/heal instants and tick phases. A free-running closed loop of real instances (harness/c16free.py) also judges that a peer seen RUNNING 12 ticks into a quiet phase without fault is still seen RUNNING at its end. '
+         'Completeness, one timer check (C07_timer_detects, C07_detection_bound): when the timer check of local tick k returns, every configured peer in an active state whose last tick is more than inactivity_ticks local ticks old IS FAILED, whatever the loop does to the other peers; with C07_timer_keeps_fresh the threshold is exact.',
+    note='Partial: the detection bound is a theorem about the timer check (on_timer_event) of ONE local tick; that the FAILED peer is invalidated (STOPPED / ISOLATED) within the same tick by the FSM evaluation that follows is carried by the lock-step correspondence and by timing judges on the real '
          'objects, not by a theorem; "lost processes become FATAL" is C11 (C11_lose_unlists; the former known finding lose-while-only-stopping was repaired by a0ba3bf); local-never-ISOLATED '
          'is judged. Real clocks and TCP time-outs are outside the model (an XML-RPC failure is an input).',
     technique='Lean 4 frame/invariant proof over operation histories (state-error monad kit) + lock-step correspondence',
